@@ -585,4 +585,61 @@ theorem broadcast_eq {β : Type} (pmax : List β) (m : Nat) (h : pmax.length = m
   | [p] => rfl
   | _ :: _ :: _ => rfl
 
+/-! ### lhs guards -/
+
+theorem broadcast_of_length_ne_one {β : Type} (pmax : List β) (m : Nat) (h : pmax.length ≠ 1) :
+    broadcast m pmax = pmax := by
+  match pmax, h with
+  | [], _ => rfl
+  | [p], h => simp at h
+  | _ :: _ :: _, _ => rfl
+
+theorem broadcast_singleton {β : Type} (p : β) (m : Nat) : broadcast m [p] = List.replicate m p := rfl
+
+theorem empty_range_any (pmin pmax : List α) :
+    (List.zipWith (fun a b => decide (b - a ≤ 0)) pmin pmax).any id = true ↔
+      ∃ (i : Nat) (a b : α), pmin[i]? = some a ∧ pmax[i]? = some b ∧ b ≤ a := by
+  induction pmin generalizing pmax with
+  | nil => simp
+  | cons x t ih =>
+    cases pmax with
+    | nil => simp
+    | cons y u =>
+      rw [List.zipWith_cons_cons, List.any_cons, Bool.or_eq_true, ih u]
+      simp only [id, decide_eq_true_eq]
+      constructor
+      · rintro (h | ⟨i, a, b, ha, hb, hab⟩)
+        · exact ⟨0, x, y, rfl, rfl, sub_nonpos.mp h⟩
+        · exact ⟨i + 1, a, b, by simpa using ha, by simpa using hb, hab⟩
+      · rintro ⟨i, a, b, ha, hb, hab⟩
+        cases i with
+        | zero =>
+          simp only [List.getElem?_cons_zero, Option.some.injEq] at ha hb
+          subst ha hb
+          left; exact sub_nonpos.mpr hab
+        | succ i => right; exact ⟨i, a, b, by simpa using ha, by simpa using hb, hab⟩
+
+theorem linspace_length (a b : α) (k : Nat) : (linspace a b k).length = k := by
+  match k with
+  | 0 => rfl
+  | 1 => rfl
+  | m + 2 => simp [linspace]
+
+/-- `linspace(0, 1, k)` stays in `[0, 1]` -/
+theorem linspace_unit_mem (k : Nat) : ∀ q ∈ linspace (0 : α) 1 k, 0 ≤ q ∧ q ≤ 1 := by
+  match k with
+  | 0 => simp [linspace]
+  | 1 => simp [linspace]
+  | m + 2 =>
+    intro q hq
+    simp only [linspace, sub_zero, add_zero, List.mem_append, List.mem_map, List.mem_range, List.mem_singleton] at hq
+    rcases hq with ⟨i, hi, rfl⟩ | rfl
+    · have hm : (0 : α) < ((m + 1 : Nat) : α) := by exact_mod_cast Nat.succ_pos m
+      have hi' : (i : α) ≤ ((m + 1 : Nat) : α) := by exact_mod_cast hi.le
+      constructor
+      · exact mul_nonneg (Nat.cast_nonneg _) (div_nonneg zero_le_one hm.le)
+      · rw [mul_one_div, div_le_one hm]
+        exact hi'
+    · exact ⟨zero_le_one, le_refl _⟩
+
 end HydroVerif.C20
